@@ -103,6 +103,16 @@ if __name__ == "__main__":
     if "--table" in sys.argv:
         table()
         sys.exit(0)
+    if "--design" in sys.argv:  # rewrite the table of DESIGN.md 9.6 between its markers
+        import io, contextlib
+        buf = io.StringIO()
+        with contextlib.redirect_stdout(buf):
+            table()
+        dp = os.path.join(ROOT, "DESIGN.md")
+        d = open(dp).read()
+        a, b = d.index("<!-- SEEDTABLE:BEGIN -->") + len("<!-- SEEDTABLE:BEGIN -->"), d.index("<!-- SEEDTABLE:END -->")
+        open(dp, "w").write(d[:a] + "\n" + buf.getvalue() + d[b:])
+        sys.exit(0)
     seeds = args or sorted(os.listdir(os.path.join(ROOT, "seeded")))
     for s in seeds:
         o = run_seed(s, tests="--tests" in sys.argv, tier="thorough" if "--thorough" in sys.argv else "quick")
